@@ -41,6 +41,8 @@ def cases(tier, rng):
                 steps.append(frame(raw(pads=[pad(0)], ui=ui, keys=[0, 1, 102], mbuttons=[0], motion=(F(1), F(-1, 2)), wheel=(F(0), F(1)))))
             steps.append(frame(raw(pads=[pad(0)], ui=[0] * len(ui), keys=[0, 1, 102], mbuttons=[0], motion=(F(1), F(-1, 2)), wheel=(F(0), F(1)))))
             yield (scenario([0, 3, 4], [0], cfg, steps), 'late-context')
+    for x in consuming_cases(tier, rng):
+        yield x
     for _ in range(600 if tier == 'thorough' else 60):
         ids = Ids()
         cfg = {(0, 0): _c15.one_ctx(ids, inputs), (3, 0): _c15.one_ctx(ids, inputs[:4] + inputs[6:8], a_slot=2)}
@@ -53,17 +55,35 @@ def cases(tier, rng):
                                    ui=[rng.choice([0, 0, 1, 2]) for _ in range(nui)]), how=rng.randrange(3)))
         yield (scenario([0, 3], [0], cfg, steps), 'random')
 
+def consuming_cases(tier, rng):
+    """consuming actions above, listeners on the same inputs below: while the UI is hovered or pressed the keyboard and
+    gamepad inputs are consumed and hidden exactly as without the UI (and the mouse ones are masked for both)"""
+    inputs = [key(0), key(1, CONTROL), pbutton(0), paxis(0), mbutton(0), wheel()]
+    for _ in range(60 if tier == 'thorough' else 12):
+        ids = Ids()
+        hi = spec([action(ids, aid(j % 4, 0, True, False), [bind(ids, inp, [PROBE], [])]) for j, inp in enumerate(inputs)])
+        lo = spec([action(ids, aid(j % 4, 1, rng.random() < .3, False), [bind(ids, inp, [PROBE], [])]) for j, inp in enumerate(inputs + [key(2, CONTROL)])])
+        cfg = {(0, 0): hi, (3, 0): lo}
+        steps = [sop(spawn(0, [0, 3])), frame(raw(pads=[pad(0)]))]
+        for _ in range(10):
+            steps.append(frame(raw(keys=[k for k in [0, 1, 2, 102] if rng.random() < .7], mbuttons=[0] if rng.random() < .6 else [],
+                                   wheel=(F(0), rng.choice([F(0), F(1)])), pads=[pad(0, [0] if rng.random() < .6 else [], [(0, rng.choice([F(0), F(1, 2)]))])],
+                                   ui=[rng.choice([0, 1, 2]) for _ in range(rng.randint(0, 2))])))
+        yield (scenario([0, 3], [0], cfg, steps), 'consuming-under-ui')
+
 def nontrivial(case, out):
     return ('VB true' in out or 'V2 1' in out)
 
-STAGES = [dict(name='ui', mode='app', coq='Check.Readc', cases=cases, nontrivial=nontrivial, shard=6,
+STAGES = [dict(name='ui', mode='app', coq='Check.C15c', cases=cases, nontrivial=nontrivial, shard=6,
                exhaustive={'thorough': True, 'quick': True},
                rule='two contexts with mouse, keyboard and gamepad bindings (with and without modifier masks), all inputs held; UI entities carrying bevy_ui Interaction: '
-                    'every sequence of length 2 (quick) / 3 (thorough) of (none, hovered, pressed) for two elements, each followed by an idle frame; elements disappearing while hovered or pressed (despawn / component removed) and re-appearing; a context inserted or rebuilt while the UI is hovered and the mouse is held; random scripts with 0-3 elements whose number changes from frame to frame; '
+                    'every sequence of length 2 (quick) / 3 (thorough) of (none, hovered, pressed) for two elements, each followed by an idle frame; elements disappearing while hovered or pressed (despawn / component removed) and re-appearing; a context inserted or rebuilt while the UI is hovered and the mouse is held; random scripts with 0-3 elements whose number changes from frame to frame; a consuming context above a listening one on keyboard, gamepad and mouse inputs with elements hovered / pressed; '
                     'every binding read is compared with the masked specification. non-trivial = some binding reads active; distinct = distinct scenario text')]
 CLAUSES = {1: 'a keyboard read changed with UI interaction (or differs from its specification)', 2: 'a mouse-sourced read is not masked exactly while some UI element is hovered or pressed',
-           3: 'a gamepad read changed with UI interaction (or differs from its specification)', 8: 'panic', 9: 'malformed trace', 10: 'panic'}
+           3: 'a gamepad read changed with UI interaction (or differs from its specification)',
+           11: 'with consuming actions: a keyboard / gamepad read under UI interaction is not what it is without the UI (hidden exactly by what was consumed before it), or a mouse read is not masked',
+           12: 'a binding of a context created in mid-run was (not) driven although its input was not (was) active in every frame since creation', 8: 'panic', 9: 'malformed trace', 10: 'panic'}
 def describe(stage, clause): return CLAUSES.get(clause, 'clause %d' % clause)
 def matches_known(k, case, verdict): return False
 TRUSTED = TRUSTED_BASE + ['UI detection through bevy_ui Interaction components; the egui feature is not built and not claimed']
-ASSUMES = ['non-consuming actions in this profile']
+ASSUMES = ['consuming actions only in the consuming-under-ui family (judged by the consumption-aware judgement of C05, which applies the same mask)']
